@@ -47,7 +47,7 @@ static uint64_t optMaxSteps = 20000000;      // per path
 static uint64_t optMaxPaths = 2000000;       // total
 static double optMaxWall = 1e9;              // seconds
 static unsigned optQueryTimeoutMs = 0;  // 0 = none (z3's per-check timer thread costs ~10 ms per query); the driver enforces wall time
-static unsigned optMaxEnum = 64;             // feasible values of a concretised index/length/pointer
+static unsigned optMaxEnum = 300;            // feasible values of a concretised index/length/pointer
 static unsigned optSamplePaths = 200;        // path records kept for native replay validation
 static unsigned optJobs = 1;
 static bool optStopFirst = false;
@@ -170,6 +170,7 @@ struct State {
   std::vector<int> covers;
   std::vector<int> failedChecks;
   bool expectThrow = false;
+  std::map<uint32_t, uint64_t> pins;  // inputs fixed to a constant by an equality constraint (used to fold later conditions)
   uint32_t shLo = 0, shHi = 1;  // shard ids this state's subtree is responsible for
   std::vector<const Function*> pending;  // functions still to run after the current one returns (static ctors, then entry)
 };
@@ -316,11 +317,13 @@ static bool feasible(const State& s, const z3::expr& extra, std::vector<uint64_t
     ent = &ci->second;
   } else {
     static z3::solver* gsv = nullptr;
-    if (!gsv) gsv = new z3::solver(Z);
+    static int mode = -1;
+    if (mode < 0) { const char* m = getenv("SYMEX_SOLVER"); mode = m ? atoi(m) : 0; }
+    if (!gsv || mode >= 1) { delete gsv; gsv = mode == 2 ? new z3::solver(Z, "QF_BV") : new z3::solver(Z); }
     z3::solver& sv = *gsv;
-    struct Popper { z3::solver& s; ~Popper() { s.pop(); } };
-    sv.push();
-    Popper popper{sv};
+    struct Popper { z3::solver& s; bool on; ~Popper() { if (on) s.pop(); } };
+    if (mode == 0) sv.push();
+    Popper popper{sv, mode == 0};
     if (optQueryTimeoutMs) {
       z3::params p(Z);
       p.set("timeout", optQueryTimeoutMs);
@@ -333,7 +336,7 @@ static bool feasible(const State& s, const z3::expr& extra, std::vector<uint64_t
     z3::check_result r = sv.check();
     double dt = now() - t0;
     ST.solver_s += dt;
-    if (getenv("SYMEX_DUMP") && dt > 0.005) { static int nd = 0; if (nd++ < 5) fprintf(stderr, "---- query %.3fs\n%s\n", dt, sv.to_smt2().c_str()); }
+    if (getenv("SYMEX_DUMP") && dt > 0.1) { static int nd = 0; if (nd++ < 5) fprintf(stderr, "---- query %.3fs\n%s\n", dt, sv.to_smt2().c_str()); }
     ST.queries++;
     if (r == z3::unknown) bound("solver returned unknown (timeout " + std::to_string(optQueryTimeoutMs) + " ms)");
     CacheEnt ce;
@@ -357,11 +360,158 @@ static bool feasible(const State& s, const z3::expr& extra, std::vector<uint64_t
   }
   return true;
 }
+static void notePin(State& s, const z3::expr& e) {
+  // pattern: (= X numeral) where X is an input, possibly under zero-extension (concat 0.. X)
+  if (!e.is_app() || e.decl().decl_kind() != Z3_OP_EQ) return;
+  z3::expr a = e.arg(0), b = e.arg(1);
+  if (a.is_numeral()) std::swap(a, b);
+  if (!b.is_numeral()) return;
+  uint64_t val;
+  if (!b.is_numeral_u64(val)) return;
+  while (a.is_app() && (a.decl().decl_kind() == Z3_OP_CONCAT || a.decl().decl_kind() == Z3_OP_ZERO_EXT)) {
+    if (a.decl().decl_kind() == Z3_OP_ZERO_EXT) { a = a.arg(0); continue; }
+    unsigned n = a.num_args();
+    bool zeros = true;
+    for (unsigned i = 0; i + 1 < n; i++) { uint64_t z; if (!a.arg(i).is_numeral_u64(z) || z != 0) zeros = false; }
+    if (!zeros) return;
+    a = a.arg(n - 1);
+  }
+  auto it = inputIdOfAst.find(Z3_get_ast_id(Z, a));
+  if (it == inputIdOfAst.end()) return;
+  unsigned w = a.get_sort().bv_size();
+  if (w < 64 && (val >> w)) return;
+  s.pins[it->second] = val;
+}
 static void addConstraint(State& s, const z3::expr& e) {
   s.pc.push_back(e);
   s.pcVars.push_back(varsOf(e));
+  notePin(s, e);
+}
+// fold a term with the pinned inputs of the state
+static z3::expr applyPins(const State& s, const z3::expr& e) {
+  if (s.pins.empty()) return e;
+  const auto& vs = varsOf(e);
+  z3::expr_vector from(Z), to(Z);
+  for (uint32_t v : vs) {
+    auto it = s.pins.find(v);
+    if (it == s.pins.end()) continue;
+    from.push_back(s.inputs[v].e);
+    to.push_back(Z.bv_val(it->second, s.inputs[v].w));
+  }
+  if (from.empty()) return e;
+  z3::expr r = e;
+  return r.substitute(from, to).simplify();
 }
 static z3::expr asBool(const Val& v) { return toExpr(v) != bvval(0, v.w); }
+
+
+// ---------------------------------------------------------------- significant-bits analysis (cheap narrowing of mul/div)
+// sigBits(e): an upper bound on 1 + index of the highest bit of e that can be set.  Multiplications and divisions whose
+// operands are provably narrow (zero-extended bytes, small constants) are performed at the narrow width and zero-extended:
+// bit-blasting a 64-bit divider for "len*138/100" costs z3 hundreds of ms per query, the 17-bit one nothing.
+static std::unordered_map<unsigned, unsigned> sigMemo;
+static unsigned sigBits(const z3::expr& e) {
+  unsigned w = e.get_sort().bv_size();
+  unsigned id = Z3_get_ast_id(Z, e);
+  auto it = sigMemo.find(id);
+  if (it != sigMemo.end()) return it->second;
+  unsigned r = w;
+  if (e.is_numeral()) {
+    uint64_t x;
+    if (e.is_numeral_u64(x)) { r = 0; while (x) { r++; x >>= 1; } }
+  } else if (e.is_app()) {
+    auto sat = [&](uint64_t v) { return (unsigned)std::min<uint64_t>(v, w); };
+    unsigned n = e.num_args();
+    switch (e.decl().decl_kind()) {
+      case Z3_OP_CONCAT: {
+        unsigned lowW = 0;
+        r = 0;
+        // args[0] is the most significant part
+        std::vector<unsigned> ws(n), ss(n);
+        for (unsigned i = 0; i < n; i++) { ws[i] = e.arg(i).get_sort().bv_size(); ss[i] = sigBits(e.arg(i)); }
+        for (int i = (int)n - 1; i >= 0; i--) { if (ss[i]) r = lowW + ss[i]; lowW += ws[i]; }
+        break;
+      }
+      case Z3_OP_ZERO_EXT: r = sigBits(e.arg(0)); break;
+      case Z3_OP_ITE: r = std::max(sigBits(e.arg(1)), sigBits(e.arg(2))); break;
+      case Z3_OP_BADD: { unsigned m = 0; for (unsigned i = 0; i < n; i++) m = std::max(m, sigBits(e.arg(i))); unsigned extra = 0; while ((1u << extra) < n) extra++; r = sat((uint64_t)m + extra); break; }
+      case Z3_OP_BMUL: { uint64_t m = 0; for (unsigned i = 0; i < n; i++) m += sigBits(e.arg(i)); r = sat(m); break; }
+      case Z3_OP_BAND: { unsigned m = w; for (unsigned i = 0; i < n; i++) m = std::min(m, sigBits(e.arg(i))); r = m; break; }
+      case Z3_OP_BOR: case Z3_OP_BXOR: { unsigned m = 0; for (unsigned i = 0; i < n; i++) m = std::max(m, sigBits(e.arg(i))); r = m; break; }
+      case Z3_OP_BLSHR: { uint64_t k; unsigned sa = sigBits(e.arg(0)); r = (e.arg(1).is_numeral_u64(k)) ? (k >= sa ? 0 : sa - (unsigned)k) : sa; break; }
+      case Z3_OP_BSHL: { uint64_t k; unsigned sa = sigBits(e.arg(0)); r = (e.arg(1).is_numeral_u64(k)) ? sat((uint64_t)sa + k) : w; break; }
+      case Z3_OP_BUDIV: case Z3_OP_BUDIV_I: r = sigBits(e.arg(0)); break;
+      case Z3_OP_BUREM: case Z3_OP_BUREM_I: r = std::min(sigBits(e.arg(0)), sigBits(e.arg(1))); break;
+      case Z3_OP_EXTRACT: { unsigned lo = e.lo(), hi = e.hi(); unsigned sa = sigBits(e.arg(0)); r = std::min(hi - lo + 1, sa > lo ? sa - lo : 0u); break; }
+      default: break;
+    }
+  }
+  keepAlive.push_back(e);
+  return sigMemo[id] = r;
+}
+
+// signed range analysis (value read as a signed w-bit integer lies in [lo,hi]); used to narrow signed mul/div
+struct SRange { bool ok; __int128 lo, hi; };
+static std::unordered_map<unsigned, SRange> srMemo;
+static SRange sRange(const z3::expr& e) {
+  unsigned w = e.get_sort().bv_size();
+  unsigned id = Z3_get_ast_id(Z, e);
+  auto it = srMemo.find(id);
+  if (it != srMemo.end()) return it->second;
+  SRange r{false, 0, 0};
+  const __int128 LIM = (__int128)1 << 100;
+  auto fits = [&](__int128 lo, __int128 hi) { return w <= 100 ? (lo >= -((__int128)1 << (w - 1)) && hi < ((__int128)1 << (w - 1))) : (lo > -LIM && hi < LIM); };
+  unsigned sb = sigBits(e);
+  if (sb < w && sb <= 100) r = SRange{true, 0, sb == 0 ? 0 : (((__int128)1 << sb) - 1)};
+  else if (e.is_numeral()) {
+    uint64_t x;
+    if (w <= 64 && e.is_numeral_u64(x)) { __int128 v = x; if (w < 128 && (v >> (w - 1)) & 1) v -= (__int128)1 << w; r = SRange{true, v, v}; }
+  } else if (e.is_app()) {
+    unsigned n = e.num_args();
+    switch (e.decl().decl_kind()) {
+      case Z3_OP_BADD: {
+        __int128 lo = 0, hi = 0; bool ok = true;
+        for (unsigned i = 0; i < n && ok; i++) { SRange a = sRange(e.arg(i)); ok = a.ok; lo += a.lo; hi += a.hi; }
+        if (ok && fits(lo, hi)) r = SRange{true, lo, hi};
+        break;
+      }
+      case Z3_OP_BMUL: {
+        if (n != 2) break;
+        SRange a = sRange(e.arg(0)), b = sRange(e.arg(1));
+        if (!a.ok || !b.ok) break;
+        auto small = [&](__int128 v) { return v > -((__int128)1 << 60) && v < ((__int128)1 << 60); };
+        if (!small(a.lo) || !small(a.hi) || !small(b.lo) || !small(b.hi)) break;
+        __int128 c[4] = {a.lo * b.lo, a.lo * b.hi, a.hi * b.lo, a.hi * b.hi};
+        __int128 lo = c[0], hi = c[0];
+        for (int i = 1; i < 4; i++) { lo = std::min(lo, c[i]); hi = std::max(hi, c[i]); }
+        if (fits(lo, hi)) r = SRange{true, lo, hi};
+        break;
+      }
+      case Z3_OP_BNEG: { SRange a = sRange(e.arg(0)); if (a.ok && fits(-a.hi, -a.lo)) r = SRange{true, -a.hi, -a.lo}; break; }
+      case Z3_OP_ITE: { SRange a = sRange(e.arg(1)), b = sRange(e.arg(2)); if (a.ok && b.ok) r = SRange{true, std::min(a.lo, b.lo), std::max(a.hi, b.hi)}; break; }
+      case Z3_OP_SIGN_EXT: r = sRange(e.arg(0)); break;
+      case Z3_OP_BSDIV: case Z3_OP_BSDIV_I: case Z3_OP_BSREM: case Z3_OP_BSREM_I: {
+        SRange a = sRange(e.arg(0));
+        if (a.ok) { __int128 m = std::max(a.hi < 0 ? -a.hi : a.hi, a.lo < 0 ? -a.lo : a.lo); if (fits(-m, m)) r = SRange{true, -m, m}; }
+        break;
+      }
+      default: break;
+    }
+  }
+  keepAlive.push_back(e);
+  return srMemo[id] = r;
+}
+static Val symvRanged(unsigned w, const z3::expr& e, const SRange& r) {  // remember the range: z3's simplifier rewrites sign_extend into concats
+  Val v = symv(w, e);
+  if (v.sym() && r.ok) { srMemo[Z3_get_ast_id(Z, *v.e)] = r; keepAlive.push_back(*v.e); }
+  return v;
+}
+static unsigned signedBitsFor(__int128 lo, __int128 hi) {  // smallest n with -2^(n-1) <= lo, hi < 2^(n-1)
+  unsigned n = 1;
+  while (n < 120 && !(lo >= -((__int128)1 << (n - 1)) && hi < ((__int128)1 << (n - 1)))) n++;
+  return n;
+}
+static z3::expr narrowTo(const z3::expr& e, unsigned n) { return n == e.get_sort().bv_size() ? e : e.extract(n - 1, 0); }
 
 // ---------------------------------------------------------------- violations
 static std::string siteOf(const State& s) {
@@ -686,11 +836,46 @@ static Val binop(unsigned op, const Val& a, const Val& b) {
   switch (op) {
     case Instruction::Add: return symv(w, x + y, po);
     case Instruction::Sub: return symv(w, x - y, po);
-    case Instruction::Mul: return symv(w, x * y);
-    case Instruction::UDiv: return symv(w, z3::udiv(x, y));
-    case Instruction::URem: return symv(w, z3::urem(x, y));
-    case Instruction::SDiv: return symv(w, x / y);
-    case Instruction::SRem: return symv(w, z3::srem(x, y));
+    case Instruction::Mul: {
+      uint64_t n = (uint64_t)sigBits(x) + sigBits(y);
+      if (n == 0) return conc(w, 0);
+      if (n < w) return symv(w, z3::zext(narrowTo(x, (unsigned)n) * narrowTo(y, (unsigned)n), w - (unsigned)n));
+      {
+        z3::expr full = x * y;
+        SRange pr = sRange(full);
+        SRange ra = sRange(x), rb = sRange(y);
+        if (pr.ok && ra.ok && rb.ok) {
+          unsigned k = std::max(signedBitsFor(pr.lo, pr.hi), std::max(signedBitsFor(ra.lo, ra.hi), signedBitsFor(rb.lo, rb.hi)));
+          if (k < w) return symvRanged(w, z3::sext(narrowTo(x, k) * narrowTo(y, k), w - k), pr);
+        }
+        return symv(w, full);
+      }
+    }
+    case Instruction::UDiv: case Instruction::URem: case Instruction::SDiv: case Instruction::SRem: {
+      unsigned sa = sigBits(x), sb = sigBits(y);
+      unsigned n = std::max(std::max(sa, sb), 1u);
+      bool uns = op == Instruction::UDiv || op == Instruction::URem;
+      bool div = op == Instruction::UDiv || op == Instruction::SDiv;
+      if (n < w && (uns || (sa < w && sb < w))) {  // both operands non-negative when read as signed
+        z3::expr a = narrowTo(x, n), b = narrowTo(y, n);
+        return symv(w, z3::zext(div ? z3::udiv(a, b) : z3::urem(a, b), w - n));
+      }
+      if (!uns) {
+        SRange ra = sRange(x), rb = sRange(y);
+        if (ra.ok && rb.ok) {
+          unsigned k = std::max(signedBitsFor(ra.lo, ra.hi), signedBitsFor(rb.lo, rb.hi)) + 1;  // +1: no overflow of MIN / -1
+          if (k < w) {
+            z3::expr a = narrowTo(x, k), b = narrowTo(y, k);
+            __int128 m = std::max(ra.hi < 0 ? -ra.hi : ra.hi, ra.lo < 0 ? -ra.lo : ra.lo);
+            return symvRanged(w, z3::sext(div ? a / b : z3::srem(a, b), w - k), SRange{true, -m, m});
+          }
+        }
+      }
+      if (op == Instruction::UDiv) return symv(w, z3::udiv(x, y));
+      if (op == Instruction::URem) return symv(w, z3::urem(x, y));
+      if (op == Instruction::SDiv) return symv(w, x / y);
+      return symv(w, z3::srem(x, y));
+    }
     case Instruction::Shl: return symv(w, z3::shl(x, y));
     case Instruction::LShr: return symv(w, z3::lshr(x, y));
     case Instruction::AShr: return symv(w, z3::ashr(x, y));
@@ -831,7 +1016,8 @@ static void pushFork(State&& o) {
 // instruction with v pinned), pin the first value on this state and return it.
 static uint64_t concretize(State& s, const Val& v, const char* what) {
   if (!v.sym()) return (uint64_t)v.c;
-  z3::expr e = *v.e;
+  z3::expr e = applyPins(s, *v.e);
+  { uint64_t x; if (e.is_numeral() && e.is_numeral_u64(x)) return x; }
   std::vector<uint64_t> vals;
   std::vector<std::vector<uint64_t>> models;
   z3::expr excl = Z.bool_val(true);
@@ -910,7 +1096,10 @@ static void finishPath(State& s, const std::string& end);
 static void doCall(State& s, const CallInst* ci, const Function* F, std::vector<Val>& args);
 
 // branch on a symbolic 1-bit value; returns taken side for s, forks the other side if feasible
-static bool forkOn(State& s, const z3::expr& t, std::function<void(State&)> onFalse) {
+static bool forkOn(State& s, const z3::expr& t0, std::function<void(State&)> onFalse) {
+  z3::expr t = applyPins(s, t0);
+  if (t.is_true()) return true;
+  if (t.is_false()) { onFalse(s); return false; }
   z3::expr nt = !t;
   bool curTrue = evalUnder(s, t).is_true();
   std::vector<uint64_t> m;
@@ -1579,6 +1768,7 @@ static void finishPath(State& s, const std::string& end) {
   if (end == "infeasible") { ST.infeasible++; return; }
   if (end == "bound") { ST.bounded++; return; }
   if (end == "othershard") { ST.otherShard++; return; }
+  if (optShard != s.shLo) { ST.otherShard++; return; }  // an unsplit range is owned by its first shard
   ST.paths++;
   ST.endKinds[end]++;
   std::set<int> cs(s.covers.begin(), s.covers.end());
